@@ -376,40 +376,44 @@ def rule_e5(F):
         r.inst("unify IntVar with Name", {"ok": ok})
         if not ok:
             r.bad(ub.path, "IntVar/Name", relfile(ub.file), ub.line, "unifying an integer literal with a named type no longer distinguishes is_signed_int / is_int by MustBeSigned")
-    # unify_intvars: the surviving root keeps the stronger signedness requirement
+    # unify_intvars: the surviving root keeps the stronger signedness requirement - decided by evaluating the function's decision
+    # code for all four combinations of the two flags (the shape of the code does not matter)
     ib = find_tc(F, "unify_intvars")
     if ib is None:
         r.missing("unify_intvars")
     else:
-        pn = [p.get("name") for p in ib.hir["params"]]
+        from .. import symex
         pty = [p.get("ty") or "" for p in ib.hir["params"]]
-        flag_of = {}
-        for i, n in enumerate(pn):
-            # a variable parameter (usize) is followed by its signedness flag (MustBeSigned)
-            if n and i + 1 < len(pn) and pn[i + 1] and pty[i] == "usize" and "MustBeSigned" in pty[i + 1]:
-                flag_of[n] = pn[i + 1]
-        sets = []
-        for c in hir.nodes(ib.hir["value"], "mcall"):
-            if c["m"] != "set" or len(c["args"]) < 2:
-                continue
-            child = names(c["args"][0])
-            ctor = hir.strip(c["args"][1])
-            if ctor.get("k") == "call" and (hir.call_def(ctor) or "").endswith("Type::IntVar") and len(ctor["args"]) == 2:
-                root = names(ctor["args"][0])
-                flag = names(ctor["args"][1])
-                sets.append((child, root, flag, c["line"]))
-        r.inst("unify_intvars links", {"links": [(sorted(a), sorted(b_), sorted(f)) for a, b_, f, _ in sets]})
-        if len(sets) < 2:
-            r.bad(ib.path, "links", relfile(ib.file), ib.line, "unify_intvars must be able to make either variable the root (so that a `must be signed` root survives); found %d link site(s)" % len(sets))
-        for child, root, flag, line in sets:
-            if len(root) == 1 and list(root)[0] in flag_of and flag != {flag_of[list(root)[0]]}:
-                r.bad(ib.path, "flag on link", relfile(ib.file), line,
-                      "the link %s -> %s records the signedness flag %s, but lookups read the flag stored at the root (%s): the `must be signed` requirement of a negated literal is lost when it is merged with another literal" % (sorted(child), sorted(root), sorted(flag), flag_of[list(root)[0]]))
-        # the Yes-over-No priority test exists
-        conds = [i for i in hir.nodes(ib.hir["value"], "if") if any((hir.res_def(n) or "").endswith("MustBeSigned::Yes") for n in hir.walk(i["cond"]) if n.get("k") == "path")]
-        r.inst("priority test", {"found": len(conds)})
-        if not conds:
-            r.bad(ib.path, "priority", relfile(ib.file), ib.line, "unify_intvars no longer gives MustBeSigned::Yes priority when choosing the root")
+        vpos = [i for i, t in enumerate(pty) if t == "usize"]
+        fpos = [i for i, t in enumerate(pty) if "MustBeSigned" in t]
+        if len(vpos) != 2 or len(fpos) != 2:
+            r.missing("two variable and two MustBeSigned parameters of unify_intvars")
+        else:
+            for fa in ("Yes", "No"):
+                for fb in ("Yes", "No"):
+                    key = "unify_intvars(%s, %s)" % (fa, fb)
+                    try:
+                        res, events = symex.run_function(ib.hir, {vpos[0]: symex.Sym("A"), fpos[0]: fa, vpos[1]: symex.Sym("B"), fpos[1]: fb})
+                    except symex.Unknown as ex:
+                        r.inst(key, {"evaluated": False, "why": str(ex)})
+                        r.bad(ib.path, key + " not evaluable", relfile(ib.file), ib.line, "the decision code of unify_intvars uses a construct the table evaluator does not understand (%s): the root/flag table cannot be established" % ex)
+                        continue
+                    links = [e for e in events if e[0] == "mcall" and e[1] == "set" and len(e[3]) == 2]
+                    want_flag = "Yes" if "Yes" in (fa, fb) else "No"
+                    desc = {"links": [(str(e[3][0]), str(e[3][1])) for e in links], "result": str(res), "required_root_flag": want_flag}
+                    r.inst(key, desc)
+                    ok = len(links) == 1
+                    if ok:
+                        child, target = links[0][3]
+                        own = {"A": fa, "B": fb}
+                        # lookups follow the link and read the flag stored AT THE ROOT, so the root must be a variable whose own flag is the required one
+                        ok = (isinstance(target, tuple) and target[:2] == ("ctor", "IntVar") and len(target) == 4
+                              and {child, target[2]} == {"A", "B"} and child != target[2] and target[3] == want_flag
+                              and own.get(target[2]) == want_flag and res == target)
+                    if not ok:
+                        r.bad(ib.path, key, relfile(ib.file), ib.line,
+                              "for flags (%s, %s) unify_intvars links %s and returns %s; expected exactly one link child -> IntVar(root, %s) with the other variable as root and the same value returned: "
+                              "the `must be signed` requirement of a negated literal is lost (or not recorded at the root) when two integer literals are merged" % (fa, fb, desc["links"], res, want_flag))
     return r
 
 
@@ -475,6 +479,99 @@ def rule_e6(F):
     return r
 
 
+def rule_e7(F):
+    """Exhaustiveness of `match` is decided by comparing the NUMBER of covered variants with the number of variants, so the
+    collection of covered variants must never hold a variant twice: every push into it is guarded by a negative `contains` test on
+    the same collection (a repeated arm would otherwise stand in for a variant that has no arm)."""
+    r = RuleResult("C07.E7", "match exhaustiveness: the covered-variants collection whose length is compared with the number of variants is kept duplicate-free", floor=1)
+    ps = [p for p in F.paths() if p.endswith("TypeChecker>::match_expr") and "typechecker::expr" in p]
+    if not ps:
+        r.missing("TypeChecker::match_expr")
+        return r
+    b = F.body(ps[0])
+    defs = mir.Defs(b)
+    dom = mir.dominators(b)
+
+    def base(op):
+        """the user local behind a (reference to a) collection"""
+        if not mir.is_place_op(op):
+            return None
+        l = op[1][0]
+        for _ in range(8):
+            ds = defs.whole_defs(l)
+            if len(ds) == 1 and ds[0][2] == "assign" and ds[0][3]["rv"]["k"] in ("ref", "use"):
+                rv = ds[0][3]["rv"]
+                src = rv.get("p") or (rv["o"][1] if mir.is_place_op(rv.get("o")) else None)
+                if not src:
+                    break
+                l = src[0]
+            elif len(ds) == 1 and ds[0][2] == "call" and hir.last(mir.callee_def(ds[0][3])) in ("deref", "deref_mut", "as_slice", "borrow") and ds[0][3]["args"]:
+                a0 = ds[0][3]["args"][0]
+                if not mir.is_place_op(a0):
+                    break
+                l = a0[1][0]
+            else:
+                break
+        return l
+    # the collection: its len() is an operand of a comparison whose other operand is a len() too
+    counted = set()
+    for bi, blk in enumerate(b.blocks):
+        for st in blk["stmts"]:
+            if st["k"] == "assign" and st["rv"]["k"] == "bin" and st["rv"]["op"] in ("Lt", "Le", "Gt", "Ge", "Eq", "Ne"):
+                sides = []
+                for o in (st["rv"]["a"], st["rv"]["b"]):
+                    if mir.is_place_op(o):
+                        for d in defs.whole_defs(o[1][0]):
+                            if d[2] == "call" and hir.last(mir.callee_def(d[3])) == "len" and d[3]["args"]:
+                                sides.append(base(d[3]["args"][0]))
+                if len(sides) == 2:
+                    counted |= {x for x in sides if x is not None and "Vec<" in b.mir["locals"][x]["ty"]}
+    pushes = [(bi, t) for bi, t in mir.calls(b) if hir.last(mir.callee_def(t)) == "push" and t["args"] and base(t["args"][0]) in counted]
+    contains = []
+    for bi, t in mir.calls(b):
+        if hir.last(mir.callee_def(t)) == "contains" and t["args"] and base(t["args"][0]) in counted:
+            contains.append((bi, t, base(t["args"][0])))
+    if not pushes:
+        r.missing("push into a collection whose length decides exhaustiveness (counted collections: %d)" % len(counted))
+        return r
+    for n, (pbi, pt) in enumerate(pushes):
+        coll = base(pt["args"][0])
+        guarded = False
+        for cbi, ct, cl in contains:
+            if cl != coll:
+                continue
+            # the result (possibly negated / stored) must be tested, and the push lie on the 'not contained' side only
+            res = ct["dest"][0]
+            for sbi, sblk in enumerate(b.blocks):
+                tt = sblk["term"]
+                if tt["k"] != "switch" or not mir.is_place_op(tt["o"]):
+                    continue
+                src = tt["o"][1][0]
+                neg = False
+                ok_src = src == res
+                for d in defs.whole_defs(src):
+                    if d[2] == "assign" and d[3]["rv"]["k"] == "un" and mir.is_place_op(d[3]["rv"].get("o") or d[3]["rv"].get("a")) :
+                        o = d[3]["rv"].get("o") or d[3]["rv"].get("a")
+                        if o[1][0] == res or any(dd[2] == "assign" and dd[3]["rv"]["k"] == "use" and mir.is_place_op(dd[3]["rv"]["o"]) and dd[3]["rv"]["o"][1][0] == res for dd in defs.whole_defs(o[1][0])):
+                            ok_src, neg = True, True
+                    if d[2] == "assign" and d[3]["rv"]["k"] == "use" and mir.is_place_op(d[3]["rv"]["o"]) and d[3]["rv"]["o"][1][0] == res:
+                        ok_src = True
+                if not ok_src:
+                    continue
+                zero = [x[1] for x in tt["targets"] if x[0] == 0]
+                other = tt["otherwise"]
+                not_contained = zero if not neg else [other]
+                contained_side = [other] if not neg else zero
+                if any(x == pbi or x in dom[pbi] for x in not_contained) and not any(x == pbi or x in dom[pbi] for x in contained_side):
+                    guarded = True
+        r.inst("push #%d into the counted collection" % n, {"line": pt["line"], "guarded_by_not_contains": guarded})
+        if not guarded:
+            r.bad(b.path, "unguarded push into the covered-variants collection", relfile(b.file), pt["line"],
+                  "a variant is recorded as covered without checking that it is not recorded already, while exhaustiveness compares the LENGTH of that collection with the number of variants: "
+                  "`match x { Some(v) => .., Some(w) => .. }` counts Some twice and is accepted although None has no arm")
+    return r
+
+
 def rules(ctx):
     F = ctx["F"]
-    return [rule_e1(F), rule_e2(F), rule_e3(F), rule_e4(F), rule_e5(F), rule_e6(F)]
+    return [rule_e1(F), rule_e2(F), rule_e3(F), rule_e4(F), rule_e5(F), rule_e6(F), rule_e7(F)]
